@@ -7,6 +7,7 @@ import Nlmodel.Proofs.Lemmas.GCReach
 import Nlmodel.Proofs.Lemmas.TypeInv
 import Nlmodel.Proofs.Lemmas.NoDangle
 import Nlmodel.Model.Pipeline
+import Nlmodel.Proofs.Lemmas.Ledger
 namespace Nl
 namespace C03
 open GC
@@ -278,6 +279,21 @@ theorem C03_result_does_not_dangle (bc : Bytecode) (s : VM) (hs : TI.Reachable b
     have := ND.exec_ok i (s.ip + i.size) s h.2 h.1
     rw [hh] at this
     exact this.2
+
+/-- NO OBJECT IS RELEASED TWICE — every single `free` of every collection hits a LIVE cell: in any state any run
+    (fresh machine or session) has reached, a collection with whatever roots releases the cells of a
+    duplicate-free list (`Ledger.swept`: the managed cells that were not marked), and each of them is live at
+    the moment its turn comes -/
+theorem C03_every_sweep_frees_live_cells (prev : VM) (bc : Bytecode) (s : VM) (hr : TI.Reachable bc.code (prev.start bc) s)
+    (roots : List Value) :
+    (GC.run s.mem roots).heap = GC.freeAll s.mem.heap (Ledger.swept s.mem roots) ∧ (Ledger.swept s.mem roots).Nodup ∧
+    ∀ pre a post, Ledger.swept s.mem roots = pre ++ a :: post → (GC.freeAll s.mem.heap pre).isLive a = true :=
+  Ledger.every_sweep_frees_live_cells prev bc s hr roots
+
+/-- in every reachable state every object the collector manages is live (never a released one), and listed once -/
+theorem C03_managed_cells_are_live (prev : VM) (bc : Bytecode) (s : VM) (hr : TI.Reachable bc.code (prev.start bc) s) :
+    s.mem.managed.Nodup ∧ ∀ a, a ∈ s.mem.managed → s.mem.heap.isLive a = true :=
+  Ledger.managed_cells_are_live prev bc s hr
 
 end C03
 end Nl
